@@ -1,8 +1,17 @@
 (* C14 — mdiff text formats round-trip and mean what GNU diff/patch say they mean.
-   Only statements, each closed by [exact] of a lemma proved elsewhere. *)
-From Coq Require Import NArith ZArith List.
+   Only statements, each closed by [exact] of a lemma proved elsewhere.
+
+   Vocabulary (all in coq/Mdiff): [normal]/[unified]/[context] are the models of the formatters
+   (bytes), [read_normal]/[read_unified]/[read_git_patch] of the readers; [normal_normalise] and
+   [unified_normalise] (FormatSpec.v) say what "the same changes at the same line ranges" means
+   for each format; [patch_ok L R cs] says that the chunk list cs describes how L becomes R
+   (ranges consistent with the edits, gaps unchanged); [apply_normal]/[apply_unified]/
+   [apply_context] (ApplySpec.v) are the reference appliers written from the diffutils manual. *)
+From Coq Require Import NArith ZArith List Lia.
 Import ListNotations.
-From Mds Require Import Mdiff.Decimal.
+From Mds Require Import Mdiff.Decimal Mdiff.ReaderModel Mdiff.FormatSpec Mdiff.ApplySpec
+  Mdiff.ReaderNormalProofs Mdiff.ApplyNormalProofs.
+Local Open Scope Z_scope.
 
 (* every number the formatters print is read back by the model of strconv.Atoi *)
 Theorem C14_itoa_atoi : forall n : Z, atoi (itoa n) = Some n.
@@ -10,3 +19,49 @@ Proof. exact itoa_atoi. Qed.
 Print Assumptions C14_itoa_atoi.
 Example C14_itoa_atoi_ex : itoa 1204 = [49; 50; 48; 52]%N /\ itoa (-7) = [45; 55]%N /\ atoi [43; 48; 57]%N = Some 9%Z.
 Proof. vm_compute. auto. Qed.
+
+(* a concrete diff used by the examples: Left = [a; b; c], Right = [a; x; c; y] *)
+Definition ex_L : list line := [[97]; [98]; [99]]%N.
+Definition ex_R : list line := [[97]; [120]; [99]; [121]]%N.
+Definition ex_cs : list (chunk line) :=
+  [mkChunk [mkEdit Replace [[98]%N] [[120]%N]] 2 3 2 3; mkChunk [mkEdit Copy [] [[121]%N]] 4 4 4 5].
+Example ex_patch_ok : patch_ok ex_L ex_R ex_cs /\ normal_ok ex_cs /\ lines_nf ex_cs.
+Proof.
+  split; [|split].
+  - unfold patch_ok, ex_cs, ex_L, ex_R.
+    apply (cf_cons _ 1 1 [[97]%N] (mkChunk [mkEdit Replace [[98]%N] [[120]%N]] 2 3 2 3)
+             [mkChunk [mkEdit Copy [] [[121]%N]] 4 4 4 5] ([[99]%N]) ([[99]%N; [121]%N])); try reflexivity.
+    apply (cf_cons _ 3 3 [[99]%N] (mkChunk [mkEdit Copy [] [[121]%N]] 4 4 4 5) [] [] []); try reflexivity.
+    apply (cf_nil _ 4 5 []).
+  - repeat constructor; cbn; try lia; discriminate.
+  - unfold lines_nf, ex_cs, chunk_lines_nf, edit_lines_nf.
+    repeat (apply Forall_cons || apply Forall_nil || split); unfold newline_free; cbn;
+      intuition discriminate.
+Qed.
+
+(* ---- normal format (holds on the code as it stands; no variant involved) ---- *)
+
+(* Read(Normal(chunks)) returns one chunk per change command at the same line ranges, for every
+   chunk list whose change commands have lines to show and whose lines are newline-free
+   (any content otherwise: empty lines, lines starting with < > - --- digits ...). *)
+Theorem C14_normal_roundtrip : forall cs : list (chunk line),
+  normal_ok cs -> lines_nf cs -> read_normal (normal cs) = ROk (normal_normalise cs).
+Proof. exact read_normal_normal. Qed.
+Print Assumptions C14_normal_roundtrip.
+Example C14_normal_roundtrip_ex :
+  read_normal (normal ex_cs) = ROk ex_cs /\ normal_normalise ex_cs = ex_cs.
+Proof. vm_compute. auto. Qed.
+
+(* re-formatting the parsed patch reproduces the text byte for byte (every chunk list) *)
+Theorem C14_normal_reformat : forall cs : list (chunk line), normal (normal_normalise cs) = normal cs.
+Proof. exact normal_reformat. Qed.
+Print Assumptions C14_normal_reformat.
+
+(* the normal rendering, read by the rules of the normal format, turns Left into Right *)
+Theorem C14_normal_apply : forall (L R : list line) (cs : list (chunk line)),
+  patch_ok L R cs -> normal_ok cs -> lines_nf cs ->
+  apply_normal L (split_lines (normal cs)) = Some R.
+Proof. exact apply_normal_text. Qed.
+Print Assumptions C14_normal_apply.
+Example C14_normal_apply_ex : apply_normal ex_L (split_lines (normal ex_cs)) = Some ex_R.
+Proof. vm_compute. reflexivity. Qed.
